@@ -86,7 +86,7 @@ async fn drain(sub: &mut ListSubscription<u64, Codec>, ended: &mut bool, into: &
         return Ok(());
     }
     loop {
-        match tokio::time::timeout(Duration::from_nanos(1), sub.recv()).await {
+        match crate::recv_selectlike!(sub) {
             Err(_) => return Ok(()),
             Ok(Ok(Some(e))) => into.push(e),
             Ok(Ok(None)) => {
